@@ -373,6 +373,10 @@ type authenticatedHTTP struct {
 func (a *authenticatedHTTP) RoundTrip(r *http.Request) (*http.Response, error) {
 
 	if cred := a.auth[r.URL.Hostname()]; cred != "" {
+		// RoundTrip must not modify the caller's request: the header would
+		// stick to a re-used request (doPoll) and be copied to redirect
+		// targets by net/http.
+		r = r.Clone(r.Context())
 		r.Header.Set("Authorization", cred)
 	}
 
